@@ -31,7 +31,9 @@ pub struct BuildErr {
 pub struct BuildOk {
     /// relative output path ("a/b.rs") -> content
     pub files: BTreeMap<String, String>,
-    pub state: ResolvedSemanticState,
+    /// behind a lock: results are shared between worker threads, and nothing promises that the
+    /// resolved state stays `Sync` (a lookup cache in a `RefCell` is a realistic change)
+    pub state: std::sync::Mutex<ResolvedSemanticState>,
 }
 
 pub type Scheduler = Box<dyn FnMut(Vec<ItemPath>) -> Vec<ItemPath>>;
@@ -157,7 +159,7 @@ impl Scratch {
         let path = scratch_base().join(format!("pvh-{}-{}-{}", std::process::id(), label, n));
         let _ = std::fs::remove_dir_all(&path);
         std::fs::create_dir_all(&path).expect("create scratch dir");
-        Scratch { path, keep: false }
+        Scratch { path, keep: std::env::var_os("PVH_KEEP").is_some() }
     }
 }
 impl Drop for Scratch {
@@ -263,7 +265,7 @@ pub fn build_modules(mods: &[(ItemPath, grammar::Module)], ptrw: usize, mut opts
         }
         Ok(BuildOk {
             files,
-            state: resolved,
+            state: std::sync::Mutex::new(resolved),
         })
     });
     pyxis::verif::set_sink(None);
